@@ -854,6 +854,68 @@ Proof.
   apply Forall_app. split; [exact FS|]. repeat constructor; unfold map_in; cbn; trivial.
 Qed.
 
+(* C03, containment: the block quote token's own map is exactly the line range the rule consumed, and every token inside
+   the quote has its map inside that range *)
+Lemma r_blockquote_contains rec term (R : rec_c rec) (T : term_fr term) st sl el st' :
+  r_blockquote cfg rec term st sl el false = Ok (true, st') -> pre st sl el ->
+  exists op seg cl, b_tokens st' = b_tokens st ++ op :: seg ++ [cl]
+    /\ tmap op = Some (sl, b_line st') /\ ttype op = [98; 108; 111; 99; 107; 113; 117; 111; 116; 101; 95; 111; 112; 101; 110]
+    /\ Forall (map_in sl (b_line st')) seg /\ tmap cl = None.
+Proof.
+  unfold r_blockquote. intros H PRE.
+  destruct (line_start st sl) as [pos|?|] eqn:LS; cbn [bind] in H; try discriminate H.
+  destruct (tb (b_eMarks st) sl) as [mx|?|] eqn:Ee; cbn [bind] in H; try discriminate H.
+  rstep H. rstep H; [discriminate H|].
+  rewrite match_some_62 in H.
+  rstep H; [|discriminate H].
+  destruct (tb (b_sCount st) sl) as [sc|?|] eqn:Esc; cbn [bind] in H; try discriminate H.
+  rstep H.
+  match type of H with bind ?m _ = _ => destruct m as [q|?|] eqn:BS end; cbn [bind] in H; try discriminate H.
+  match type of H with bind ?m _ = _ => destruct m as [sv0|?|] eqn:SL end; cbn [bind] in H; try discriminate H.
+  match type of H with bind (apply_bq ?a ?b ?c) _ = _ => destruct (apply_bq a b c) as [st1|?|] eqn:AB end;
+    cbn [bind] in H; try discriminate H.
+  match type of H with bind ?m _ = _ => destruct m as [[[nl sv] st3]|?|] eqn:BL end; cbn [bind] in H; try discriminate H.
+  match type of H with bind (rec ?a ?b ?c) _ = _ => destruct (rec a b c) as [st6|?|] eqn:RC end;
+    cbn [bind] in H; try discriminate H.
+  match type of H with bind ?m _ = _ => destruct m as [st10|?|] eqn:RT end; cbn [bind] in H; try discriminate H.
+  injection H as <-. destruct PRE as (Q0 & Q1 & Q2 & Q3 & HTI).
+  (* the first line *)
+  apply bq_strip_spec in BS. destruct BS as (B1 & B2 & B3).
+  assert (G : goodbt (b_src st) (b_eMarks st) sl (q_bMark q) (q_tShift q)).
+  { unfold line_start in LS. destruct (tb (b_bMarks st) sl) as [b0|?|] eqn:Eb; cbn [bind] in LS; try discriminate LS.
+    destruct (tb (b_tShift st) sl) as [t0|?|] eqn:Et; cbn [bind] in LS; try discriminate LS. injection LS as <-.
+    pose proof (TIp_good _ _ _ _ sl _ _ HTI ltac:(lia) Eb Et) as G0.
+    eapply goodbt_mono; [exact G0| |lia]. destruct (G0 mx Ee) as (A & B & _). lia. }
+  assert (SO0 : sv_ok (b_src st) (b_eMarks st) sl [] []) by exact I.
+  destruct (save_line_m (mkSaved [] [] [] []) st sl sv0 sl SL Q0 HTI SO0 ltac:(cbn; lia) ltac:(cbn; lia)) as (SO1 & M1 & M2).
+  destruct (apply_bq_m _ _ _ _ AB Q0 HTI G) as (HT1 & K1 & LM1 & SC1 & SC2).
+  destruct K1 as (K11 & K12 & K13 & K14 & K15).
+  apply (bq_loop_m term T sl) in BL; try lia.
+  2: cbn; lia.
+  2: exact HT1.
+  2: cbn; rewrite K13, K14; exact SO1.
+  destruct BL as (L1 & L2 & L3 & HT3 & SO3 & K3 & SC3). destruct K3 as (K31 & K32 & K33 & K34 & K35).
+  cbn in L3, K31, K32, K33, K34, K35.
+  (* the nested block loop *)
+  destruct (R _ _ _ _ RC Q0 ltac:(lia) ltac:(cbn; lia) HT3) as (C1 & C2 & C3 & HT6 & C5 & C6 & C7). cbn in C1, C2, C5, C6.
+  assert (FO : first_ok (bpush (st3 <| b_blkIndent := 0 |>) [98; 108; 111; 99; 107; 113; 117; 111; 116; 101; 95; 111; 112; 101; 110] nm_blockquote 1
+                              (fun t => map_tok sl 0 (set_markup t [62]))) sl).
+  { right. intros s0 E0. cbn in E0. rewrite SC3 in E0 by lia. cbn in E0. rewrite SC1 in E0. injection E0 as <-. cbn. lia. }
+  specialize (C7 FO).
+  (* restoring the tables *)
+  apply restore_tables_m in RT; [|exact Q0| |].
+  2: { cbn. exact HT6. }
+  2: { cbn. rewrite C5, C6. cbn. exact SO3. }
+  destruct RT as (HT10 & K10 & LM10). destruct K10 as (K101 & K102 & K103 & K104 & K105).
+  cbn in LM10, K102. unfold st_parent in K101. cbn -[set_map_at bpush app] in K101.
+  cbn [b_line set]. rewrite K102. cbn [b_tokens set]. rewrite K101.
+  destruct C3 as (seg & ES & FS).
+  rewrite bpush_tokens, ES, bpush_tokens.
+  change (b_tokens (st3 <| b_blkIndent := 0 |>)) with (b_tokens st3). rewrite K31, K11.
+  rewrite <- !app_assoc. cbn [app]. unfold set_map_at. rewrite update_nth_app.
+  eexists _, seg, _. split; [reflexivity|]. split; [reflexivity|]. split; [reflexivity|]. split; [exact FS | reflexivity].
+Qed.
+
 (* ---- list ---- *)
 Lemma list_items_m rec term (R : rec_c rec) (T : term_fr term) : forall fuel st isOrd mc sl el pam start tight pee nl tight' st',
   list_items cfg fuel rec term st isOrd mc sl sl el pam start tight pee = Ok (nl, tight', st') ->
@@ -953,6 +1015,114 @@ Proof.
     + destruct (skip_bullet_gt _ _ _ _ SK LS'); lia.
 Qed.
 
+(* C03, containment in list items: what the item loop appends is a sequence of items, each  list_item_open  with the map
+   [a, b) of the lines of the item, the tokens of the item with maps inside [a, b), list_item_close; the items follow each
+   other line range by line range *)
+Inductive item_seq : Z -> Z -> list token -> Prop :=
+| item_one a b op seg cl : tmap op = Some (a, b) -> Forall (map_in a b) seg -> tmap cl = None -> item_seq a b (op :: seg ++ [cl])
+| item_more a b c op seg cl rest : tmap op = Some (a, b) -> Forall (map_in a b) seg -> tmap cl = None -> item_seq b c rest ->
+    item_seq a c ((op :: seg ++ [cl]) ++ rest).
+
+Lemma list_items_contains rec term (R : rec_c rec) (T : term_fr term) : forall fuel st isOrd mc sl el pam start tight pee nl tight' st',
+  list_items cfg fuel rec term st isOrd mc sl sl el pam start tight pee = Ok (nl, tight', st') ->
+  0 <= sl -> sl < el -> el <= b_lineMax st -> TI st -> b_line st = sl ->
+  (forall ls, line_start st sl = Ok ls -> ls < pam) ->
+  exists its, b_tokens st' = b_tokens st ++ its /\ item_seq sl nl its.
+Proof.
+  induction fuel as [|f IH]; intros st isOrd mc sl el pam start tight pee nl tight' st' H S0 S1 S2 HT BL PM; [discriminate H|].
+  cbn [list_items] in H.
+  assert (NE : negb (sl <? el) = false) by lia. rewrite NE in H.
+  destruct (tb (b_eMarks st) sl) as [mx|?|] eqn:Ee; cbn [bind] in H; try discriminate H.
+  destruct (tb (b_sCount st) sl) as [scn|?|] eqn:Esc; cbn [bind] in H; try discriminate H.
+  destruct (line_start st sl) as [ls|?|] eqn:LS; cbn [bind] in H; try discriminate H.
+  rstep H.
+  match type of H with bind ?m _ = _ => destruct m as [[contentStart offset]|?|] eqn:LB end; cbn [bind] in H; try discriminate H.
+  apply list_blanks_mono in LB. destruct LB as [LB1 LB2].
+  cbv zeta in H.
+  set (initial := scn + pam - ls) in *.
+  set (iam0 := if mx <=? contentStart then 1 else offset - initial) in *.
+  set (iam := if 4 <? iam0 then 1 else iam0) in *.
+  set (indent := initial + iam) in *.
+  match type of H with context [bpush st s_list_item_open s_li 1 ?f] => set (st1 := bpush st s_list_item_open s_li 1 f) in * end.
+  change (b_tShift st1) with (b_tShift st) in H. change (b_sCount st1) with (b_sCount st) in H.
+  change (b_bMarks st1) with (b_bMarks st) in H.
+  destruct (tb (b_tShift st) sl) as [oldTS|?|] eqn:Ets; cbn [bind] in H; try discriminate H.
+  rewrite Esc in H. cbn [bind] in H.
+  destruct (tb (b_bMarks st) sl) as [bms|?|] eqn:Ebm; cbn [bind] in H; try discriminate H.
+  destruct (tb_set (b_tShift st) sl (contentStart - bms)) as [ts'|?|] eqn:S1'; cbn [bind] in H; try discriminate H.
+  destruct (tb_set (b_sCount st) sl offset) as [sc'|?|] eqn:S2'; cbn [bind] in H; try discriminate H.
+  specialize (PM ls eq_refl).
+  assert (LSE : ls = bms + oldTS).
+  { unfold line_start in LS. rewrite Ebm, Ets in LS. cbn [bind] in LS. injection LS as <-. reflexivity. }
+  destruct (HT sl bms mx oldTS S0 Ebm Ee Ets) as (G1 & G2 & G3 & G4).
+  match type of H with context [st1 <| b_listIndent := ?a |> <| b_blkIndent := ?b |> <| b_tight := ?c |> <| b_tShift := ?d |> <| b_sCount := ?e |>] =>
+    set (st2 := st1 <| b_listIndent := a |> <| b_blkIndent := b |> <| b_tight := c |> <| b_tShift := d |> <| b_sCount := e |>) in * end.
+  assert (HT2 : TI st2).
+  { unfold TI, st2, st1. cbn. exact (TIp_set_ts _ _ _ _ _ _ _ HT S0 S1' ltac:(lia)). }
+  assert (L2 : b_lineMax st2 = b_lineMax st) by reflexivity.
+  assert (B2 : b_line st2 = sl) by exact BL.
+  assert (T2 : b_tokens st2 = b_tokens st1) by reflexivity.
+  destruct (tb_set_spec _ _ _ _ S1' S0) as (TS1 & _ & _). destruct (tb_set_spec _ _ _ _ S2' S0) as (SC1 & _ & _).
+  (* the item body *)
+  match type of H with bind ?m _ = _ => destruct m as [st3|?|] eqn:BODY end; cbn [bind] in H; try discriminate H.
+  assert (B3 : sl < b_line st3 <= b_lineMax st /\ b_lineMax st3 = b_lineMax st /\ TI st3 /\ se st st3 /\ gm sl (b_line st3) st2 st3).
+  { destruct (if mx <=? contentStart then is_empty st2 (sl + 1) else Ok false) as [e|?|] eqn:EE; cbn [bind] in BODY; try discriminate BODY.
+    destruct e.
+    - injection BODY as <-. change (b_line (st_line st2 (Z.min (b_line st + 2) el))) with (Z.min (b_line st + 2) el). rewrite BL.
+      split; [lia|]. split; [reflexivity|]. split; [exact HT2|]. split; [split; reflexivity|].
+      exists []. rewrite app_nil_r. split; [reflexivity | constructor].
+    - destruct (R _ _ _ _ BODY S0 S1 ltac:(rewrite L2; lia) HT2) as (C1 & C2 & C3 & C4 & C5 & C6 & C7).
+      assert (FO : first_ok st2 sl).
+      { destruct (mx <=? contentStart) eqn:MC.
+        - left. exists contentStart, mx. unfold line_start. unfold st2, st1. cbn. rewrite Ebm, TS1. cbn [bind].
+          split; [f_equal; lia|]. split; [exact Ee|]. split; lia.
+        - right. intros s0 E0. unfold st2, st1 in E0. cbn in E0. rewrite SC1 in E0. injection E0 as <-.
+          unfold st2, st1. cbn. unfold indent, iam, iam0. destruct (4 <? offset - initial) eqn:X; lia. }
+      specialize (C7 FO). rewrite L2 in *. split; [lia|]. split; [exact C1|]. split; [exact C4|]. split; [split; [exact C5 | exact C6]|]. exact C3. }
+  destruct B3 as (B31 & B32 & HT3 & SE3 & G3m).
+  rstep H.
+  destruct (tb_set (b_tShift st3) sl oldTS) as [ts''|?|] eqn:S3'; cbn [bind] in H; try discriminate H.
+  destruct (tb_set (b_sCount st3) sl scn) as [sc''|?|] eqn:S4'; cbn [bind] in H; try discriminate H.
+  match type of H with context [bpush ?s4 s_list_item_close s_li (-1) ?f] => set (st5 := bpush s4 s_list_item_close s_li (-1) f) in * end.
+  change (b_line st5) with (b_line st3) in H.
+  match type of H with context [st5 <| b_tokens := ?v |>] => set (st6 := st5 <| b_tokens := v |>) in * end.
+  assert (A6 : b_line st6 = b_line st3 /\ b_lineMax st6 = b_lineMax st /\ TI st6 /\ se st st6
+               /\ exists op seg3 cl, b_tokens st6 = b_tokens st ++ op :: seg3 ++ [cl] /\ tmap op = Some (sl, b_line st3)
+                                       /\ Forall (map_in sl (b_line st3)) seg3 /\ tmap cl = None).
+  { split; [reflexivity|]. split; [exact B32|]. split.
+    { unfold TI, st6, st5. cbn. destruct SE3 as [E1 E2]. exact (TIp_set_ts _ _ _ _ _ _ _ HT3 S0 S3' G2). }
+    split; [exact SE3|].
+    destruct G3m as (seg3 & E3 & F3).
+    unfold st6, st5. cbn -[set_map_at app]. rewrite E3, T2. unfold st1. rewrite bpush_tokens.
+    rewrite <- !app_assoc. cbn [app]. unfold set_map_at. rewrite update_nth_app.
+    eexists _, seg3, _. split; [reflexivity|]. split; [destruct isOrd; reflexivity|]. split; [exact F3 | reflexivity]. }
+  destruct A6 as (A61 & A62 & A63 & A64 & (op & seg3 & cl & A65 & MO & FS & MC)).
+  assert (DONE6 : exists its, b_tokens st6 = b_tokens st ++ its /\ item_seq sl (b_line st3) its)
+    by (exists (op :: seg3 ++ [cl]); split; [exact A65 | apply item_one; assumption]).
+  destruct (el <=? b_line st3) eqn:EN; [injection H as <- <- <-; exact DONE6|].
+  rstep H. rstep H; [injection H as <- <- <-; exact DONE6|].
+  rstep H. rstep H; [injection H as <- <- <-; exact DONE6|].
+  destruct (term nm_list st6 (b_line st3) el) as [[t st7]|?|] eqn:TE; cbn [bind] in H; try discriminate H.
+  pose proof (T nm_list _ _ _ _ _ ltac:(discriminate) TE) as E7.
+  assert (TK7 : b_tokens st7 = b_tokens st6) by exact (fr_tokens _ _ E7).
+  assert (DONE7 : exists its, b_tokens st7 = b_tokens st ++ its /\ item_seq sl (b_line st3) its)
+    by (exists (op :: seg3 ++ [cl]); split; [rewrite TK7; exact A65 | apply item_one; assumption]).
+  destruct t; [injection H as <- <- <-; exact DONE7|].
+  match type of H with bind ?m _ = _ => destruct m as [pam'|?|] eqn:SK end; cbn [bind] in H; try discriminate H.
+  destruct (pam' <? 0) eqn:PN; [injection H as <- <- <-; exact DONE7|].
+  rstep H. rstep H. rstep H; [injection H as <- <- <-; exact DONE7|].
+  assert (D2 : b_line st7 = b_line st3) by (rewrite (fr_line _ _ E7); exact A61).
+  assert (D3 : b_lineMax st7 = b_lineMax st) by (rewrite (fr_lineMax _ _ E7); exact A62).
+  assert (D4 : TI st7) by exact (fr_TI _ _ E7 A63).
+  apply IH in H; try lia; try assumption.
+  - destruct H as (its & ET & IS). exists ((op :: seg3 ++ [cl]) ++ its). split.
+    + rewrite ET, TK7, A65. rewrite <- !app_assoc. reflexivity.
+    + apply (item_more sl (b_line st3) nl); assumption.
+  - intros ls' LS'. destruct isOrd.
+    + destruct (skip_ordered_gt _ _ _ _ SK LS'); lia.
+    + destruct (skip_bullet_gt _ _ _ _ SK LS'); lia.
+Qed.
+
 Lemma r_list_c rec term (R : rec_c rec) (T : term_fr term) st sl el silent b st' :
   r_list cfg rec term st sl el silent = Ok (b, st') -> rule_c st sl el silent b st'.
 Proof.
@@ -1012,6 +1182,98 @@ Proof.
   rewrite E5 in ME at 1.
   destruct (gm_reshape sl nextLine (b_tokens st) seg5 _ F5 ME) as (seg' & EX & FX).
   exists seg'. split; [exact EX | exact FX].
+Qed.
+
+(* the same structure read off the maps alone (markTightParagraphs only touches hidden flags) *)
+Definition mp_in (a b : Z) (m : option (Z * Z)) : Prop := match m with Some (x, y) => a <= x /\ x < y /\ y <= b | None => True end.
+Inductive mseq : Z -> Z -> list (option (Z * Z)) -> Prop :=
+| mseq_one a b ms : Forall (mp_in a b) ms -> mseq a b (Some (a, b) :: ms ++ [None])
+| mseq_more a b c ms rest : Forall (mp_in a b) ms -> mseq b c rest -> mseq a c ((Some (a, b) :: ms ++ [None]) ++ rest).
+
+Lemma Forall_map_in_mp a b l : Forall (map_in a b) l -> Forall (mp_in a b) (map tmap l).
+Proof. induction 1; cbn [map]; constructor; assumption. Qed.
+
+Lemma item_seq_mseq a b l : item_seq a b l -> mseq a b (map tmap l).
+Proof.
+  induction 1 as [a b op seg cl MO FS MC | a b c op seg cl rest MO FS MC IS IH].
+  - cbn [map]. rewrite map_app. cbn [map]. rewrite MO, MC. apply mseq_one. apply Forall_map_in_mp, FS.
+  - rewrite map_app. cbn [map]. rewrite map_app. cbn [map]. rewrite MO, MC. apply mseq_more; [apply Forall_map_in_mp, FS | exact IH].
+Qed.
+
+(* C03, containment in lists: the list token's own map is the line range the rule consumed; between the list tokens the maps
+   are those of a sequence of items, each item's tokens inside the item's own map, all inside the list's *)
+Lemma r_list_contains rec term (R : rec_c rec) (T : term_fr term) st sl el st' :
+  r_list cfg rec term st sl el false = Ok (true, st') -> pre st sl el ->
+  exists lo its lc, b_tokens st' = b_tokens st ++ lo :: its ++ [lc]
+    /\ tmap lo = Some (sl, b_line st') /\ tmap lc = None /\ mseq sl (b_line st') (map tmap its).
+Proof.
+  unfold r_list. intros H PRE.
+  rstep H. rstep H; [discriminate H|].
+  rstep H. rstep H; [discriminate H|].
+  cbv zeta in H.
+  destruct (skip_ordered st sl) as [pamo|?|] eqn:SO; cbn [bind] in H; try discriminate H.
+  destruct (line_start st sl) as [start|?|] eqn:LS; cbn [bind] in H; try discriminate H.
+  match type of H with bind ?m _ = _ => destruct m as [sel|?|] eqn:SEL end; cbn [bind] in H; try discriminate H.
+  destruct sel as [[[isOrd pam] mv]|]; [|discriminate H].
+  assert (PM : start < pam).
+  { destruct (0 <=? pamo) eqn:P0.
+    - match type of SEL with (if ?c then Ok None else _) = _ => destruct c end; [discriminate SEL|].
+      injection SEL as <- <- <-. destruct (skip_ordered_gt _ _ _ _ SO LS); lia.
+    - destruct (skip_bullet st sl) as [pamb|?|] eqn:SB; cbn [bind] in SEL; try discriminate SEL.
+      destruct (0 <=? pamb) eqn:P1; [|discriminate SEL]. injection SEL as <- <- <-.
+      destruct (skip_bullet_gt _ _ _ _ SB LS); lia. }
+  rstep H. rstep H; [discriminate H|].
+  destruct (py_idx (b_src st) (pam - 1)) as [x2|?|] eqn:MC0; cbn [bind] in H; try discriminate H.
+  match type of H with bind ?m _ = _ => destruct m as [[[nextLine tight] st3]|?|] eqn:LI end; cbn [bind] in H; try discriminate H.
+  injection H as <-. destruct PRE as (Q0 & Q1 & Q2 & Q3 & HTI).
+  match type of LI with list_items _ _ _ _ (st_parent ?s1 _) _ _ _ _ _ _ _ _ _ = _ => set (st1 := s1) in * end.
+  assert (E1 : exists ph, b_tokens st1 = b_tokens st ++ [ph]).
+  { unfold st1. destruct isOrd; rewrite bpush_tokens; eexists; reflexivity. }
+  destruct E1 as (ph & E1).
+  pose proof LI as LIC.
+  apply (list_items_contains rec term R T) in LIC; try assumption.
+  2: { unfold st1. destruct isOrd; cbn; lia. }
+  2: { unfold st1. destruct isOrd; exact HTI. }
+  2: { unfold st1. destruct isOrd; exact Q3. }
+  2: { intros ls LS'. assert (line_start st sl = Ok ls) by (unfold st1 in LS'; destruct isOrd; exact LS'). congruence. }
+  apply (list_items_m rec term R T) in LI; try assumption.
+  2: { unfold st1. destruct isOrd; cbn; lia. }
+  2: { unfold st1. destruct isOrd; exact HTI. }
+  2: { unfold st1. destruct isOrd; exact Q3. }
+  2: { intros ls LS'. assert (line_start st sl = Ok ls) by (unfold st1 in LS'; destruct isOrd; exact LS'). congruence. }
+  destruct LI as (I1 & I2 & I3 & I4 & I5 & I6).
+  destruct LIC as (its & ES & IS). change (b_tokens (st_parent st1 nm_list)) with (b_tokens st1) in ES. rewrite E1 in ES.
+  (* the tokens before markTightParagraphs *)
+  match goal with |- exists _ _ _, b_tokens (if tight then ?A else ?B) = _ /\ _ => set (st5 := B) end.
+  assert (ET : exists cl, b_tokens (if isOrd
+        then bpush st3 [111; 114; 100; 101; 114; 101; 100; 95; 108; 105; 115; 116; 95; 99; 108; 111; 115; 101] [111; 108] (-1) (fun t => set_markup t [x2])
+        else bpush st3 [98; 117; 108; 108; 101; 116; 95; 108; 105; 115; 116; 95; 99; 108; 111; 115; 101] [117; 108] (-1) (fun t => set_markup t [x2]))
+        = b_tokens st3 ++ [cl] /\ tmap cl = None).
+  { destruct isOrd; rewrite bpush_tokens; eexists; split; reflexivity. }
+  destruct ET as (cl & ET & MC).
+  assert (T5 : exists lo, b_tokens st5 = b_tokens st ++ lo :: its ++ [cl] /\ tmap lo = Some (sl, nextLine)).
+  { unfold st5. cbn -[set_map_at app]. rewrite ET, ES. rewrite <- !app_assoc. cbn [app].
+    unfold set_map_at. rewrite update_nth_app. eexists. split; [reflexivity | reflexivity]. }
+  destruct T5 as (lo & T5 & MLO).
+  assert (L5 : b_line st5 = nextLine) by reflexivity.
+  destruct tight.
+  - (* tight: hidden flags change, maps and the first tokens do not *)
+    cbn [b_line set]. cbn [b_tokens set].
+    pose proof (mark_tight_mapeq (length (b_tokens st)) (S (length (b_tokens st5))) (b_tokens st5) (Z.of_nat (length (b_tokens st)) + 2)
+                  (len (b_tokens st5) - 2) (b_level st5 + 2) ltac:(lia) ltac:(lia)) as [MP MM].
+    set (X := mark_tight (S (length (b_tokens st5))) (b_tokens st5) (Z.of_nat (length (b_tokens st)) + 2) (len (b_tokens st5) - 2) (b_level st5 + 2)) in *.
+    rewrite T5 in MP, MM. rewrite firstn_app, Nat.sub_diag, firstn_all in MP. cbn [firstn] in MP. rewrite app_nil_r in MP.
+    assert (XS : X = b_tokens st ++ skipn (length (b_tokens st)) X) by (rewrite <- (firstn_skipn (length (b_tokens st)) X) at 1; rewrite <- MP; reflexivity).
+    assert (MS : map tmap (skipn (length (b_tokens st)) X) = Some (sl, nextLine) :: map tmap its ++ [None]).
+    { rewrite <- skipn_map, <- MM, skipn_map, skipn_app, Nat.sub_diag, skipn_all. cbn [skipn app map]. rewrite map_app. cbn [map]. rewrite MLO, MC. reflexivity. }
+    destruct (skipn (length (b_tokens st)) X) as [|lo' rest'] eqn:SK; [discriminate MS|].
+    cbn [map] in MS. injection MS as ML MR.
+    assert (RL : exists its' lc', rest' = its' ++ [lc'] /\ map tmap its' = map tmap its /\ tmap lc' = None).
+    { destruct (@exists_last _ rest') as (its' & lc' & ->); [intros ->; destruct (map tmap its); discriminate MR|].
+      rewrite map_app in MR. cbn [map] in MR. apply app_inj_tail in MR. destruct MR as [M1 M2]. exists its', lc'. repeat split; assumption. }
+    destruct RL as (its' & lc' & -> & MI & MLc).
+    exists lo', its', lc'. split; [exact XS|]. split; [exact ML|]. split; [exact MLc|]. rewrite MI. apply item_seq_mseq, IS.
+  - exists lo, its, cl. split; [exact T5|]. split; [exact MLO|]. split; [exact MC|]. apply item_seq_mseq, IS.
 Qed.
 
 End Rules.
